@@ -3261,6 +3261,10 @@ static int get_more_chars(struct scanner_s *scanner) {
         } while (CIF_TRUE);
 
         dest = lead;
+        if (lead) {
+            /* the first CR LF pair of this fill will be converted to just LF, too */
+            nread -= 1;
+        }
         while (lead) {
             ptrdiff_t length;
 
